@@ -42,6 +42,7 @@ type FuncContract struct {
 	Trusted    bool // contract assumed, body not verified
 	NoThrow    bool
 	Pure       bool
+	PureIf     *Clause // the function writes nothing visible to callers when this holds at entry
 	NoSafety   bool // do not emit safety obligations (function only used as a callee contract)
 	Split      []string // case-split expressions (each obligation proved per case)
 	Timeout    int
@@ -238,6 +239,8 @@ func (cs *ContractSet) parseFile(path, pkg string) error {
 				cur.NoThrow = true
 			case "pure":
 				cur.Pure = true
+			case "pure_if":
+				cur.PureIf = cl
 			case "nosafety":
 				cur.NoSafety = true
 			case "split":
